@@ -23,6 +23,7 @@ RULE = (
     "and every emitted coordinate must be the grid element nearest to lower + u (upper - lower) with u the exact sequence "
     "value at that cursor; near-ties between two grid elements are skipped). Non-trivial = d >= 3 and an index with a carry in some base, or a "
     "split batch sequence; distinct by (kind, d, start, sizes)."
+    ' Batch sizes are also numpy integers; every fourth lifecycle case adds six seeds beyond 32 bits for both samplers (equal seed - equal start; not all six may start where their low 32 bits start).'
 )
 ASSUMPTIONS = [
     "the first point may be counted as k=0 or k=1: first emitted index accepted in [20, 2^16]; the draw log must show the start requested from exactly [20, 2^16)",
